@@ -680,7 +680,7 @@ theorem inv_runView (v : Rest.View) (req : Rest.Request) {s : Sess} (h : SessInv
     · simp only [Rest.runView]
       unfold Rest.viewSendBinUpdate Rest.binSend
       repeat' split
-      all_goals first | exact h | exact inv_writeOn h _ _
+      all_goals first | exact h | exact inv_bumpSent (inv_writeOn h _ _) _ _
 
 /-- every REST request (any route record) preserves the invariant -/
 theorem sessInv_handle (rc : Rest.RestCfg) (r : Rest.Route) (req : Rest.Request) (s : Sess) (h : SessInv s) :
